@@ -148,7 +148,11 @@ func (a *vC18Tok) build(ks *vC18KeySet, now time.Time) (string, string, []byte) 
 		var k interface{}
 		switch {
 		case strings.HasPrefix(method, "RS"), strings.HasPrefix(method, "PS"):
-			k = ks.rsa[key]
+			// a key name the set does not have must stay an untyped nil (a typed nil *rsa.PrivateKey in the
+			// interface would pass the check below and crash the signer -- a fault of this harness, not of the code)
+			if pk := ks.rsa[key]; pk != nil {
+				k = pk
+			}
 		case strings.HasPrefix(method, "ES"):
 			k = ks.ec
 		case method == "EdDSA":
